@@ -526,7 +526,7 @@ Section ShapeMain.
   Proof.
     intros Ha Hw Hnx Hg.
     set (s' := match pat with Some _ => set_regress s0 | None => s0 end) in *.
-    assert (Hw' : wf s') by (destruct pat; [destruct Hw as [H1 H2]; split; [exact H1|exact H2]|exact Hw]).
+    assert (Hw' : wf s') by (destruct pat; [destruct Hw as [H1 H2 H3]; split; [exact H1|exact H2|exact H3]|exact Hw]).
     assert (Hnx' : nD < st_next s') by (destruct pat; exact Hnx).
     assert (Hg' : ents_ok nD (lk s')) by (destruct pat; exact Hg).
     assert (Hf0 : forall n, det_name DString = Some n -> ~ In n (nkeys s')) by (intros n Hn; discriminate).
@@ -837,6 +837,7 @@ Section ShapeMain.
       + intros d' j Hin. unfold s3 in Hin. cbn [st_types] in Hin. rewrite Hlk3.
         pose proof (wf_types s2 Hw2 d' j Hin) as H.
         destruct (j =? t) eqn:E; [|exact H]. apply N.eqb_eq in E. subst j. rewrite Ht2 in H. discriminate.
+      + unfold s3. cbn [st_ents]. apply put_sorted. exact (wf_sorted s2 Hw2).
     - unfold s3. cbn [st_next]. exact Hnx2.
     - intros i Hi1 Hi2. rewrite Hlk3. rewrite app_length in Hi1. cbn [length] in Hi1.
       destruct (i =? t) eqn:E; [apply N.eqb_eq in E; unfold t in E; lia|].
@@ -895,7 +896,7 @@ Section ShapeMain.
     destruct (conv_defs cls (ref_id D) D 1 _) as [sf|] eqn:Hcd; [|discriminate]. injection Hc as <-.
     assert (HI0 : SInv [] (mkSt (1 + nD) [] [] [] (mkFlags false false))).
     { split.
-      - split; [intros i e H; discriminate H|intros d i []].
+      - split; [intros i e H; discriminate H|intros d i []|exact I].
       - cbn [st_next]. lia.
       - intros i _ _. reflexivity.
       - intros n [].
@@ -912,5 +913,27 @@ Section ShapeMain.
       - apply nth_error_None in Hn. lia. }
     split; [|split; [exact Hg|exact Hp]].
     intros j d sch Hn. destruct (Hdn j d sch Hn) as [_ HC]. apply HC; assumption.
+  Qed.
+
+  Theorem convert_nodup T :
+    in_frag cls D = true -> convert_doc cls D = Some T -> NoDup (map fst (sp_entries T)).
+  Proof.
+    intros Hin Hc. unfold in_frag in Hin.
+    apply andb_true_iff in Hin. destruct Hin as [Hin _].
+    apply andb_true_iff in Hin. destruct Hin as [Hin Hun].
+    apply andb_true_iff in Hin. destruct Hin as [Hin Hfr].
+    apply unique_true_iff in Hun.
+    unfold convert_doc in Hc. destruct (negb (Sanitize.unique (def_names cls D))); [discriminate|].
+    destruct (conv_defs cls (ref_id D) D 1 _) as [sf|] eqn:Hcd; [|discriminate]. injection Hc as <-.
+    assert (HI0 : SInv [] (mkSt (1 + nD) [] [] [] (mkFlags false false))).
+    { split.
+      - split; [intros i e H; discriminate H|intros d i []|exact I].
+      - cbn [st_next]. lia.
+      - intros i _ _. reflexivity.
+      - intros n [].
+      - split; intros i e; [|intros _ _]; intro H; discriminate H.
+      - intros j d sch H. destruct j; discriminate H. }
+    pose proof (conv_defs_shape D [] _ sf eq_refl Hcd Hfr Hun HI0) as [Hw _ _ _ _ _].
+    cbn [space_of sp_entries]. apply ksorted_NoDup. exact (wf_sorted sf Hw).
   Qed.
 End ShapeMain.
